@@ -45,6 +45,9 @@ def kind_of(message):
 
 
 _DRIVER_CLASSES = {}
+# every delivery to ANY endpoint the harness ever created in this process (all Real routers): a router must not reach endpoints
+# that were registered with another Router object (class-level / module-level state shared between routers)
+ALL_DELIVERIES = [0]
 
 
 def driver_class(name):
@@ -53,6 +56,7 @@ def driver_class(name):
         from indi.device import Driver, properties
 
         def message_from_client(self, message):
+            ALL_DELIVERIES[0] += 1
             self._vf_log.append(("dev", self._vf_id, message))
             if getattr(self, "_vf_react", None):
                 self._vf_react("dev", self._vf_id, self, message)
@@ -120,6 +124,7 @@ class Real:
                 return s.acc(device)
 
             def message_from_client(s, message):
+                ALL_DELIVERIES[0] += 1
                 log.append(("dev", s.did, message))
                 react("dev", s.did, s, message)
 
@@ -133,6 +138,7 @@ class Real:
                 s.cid = cid
 
             def message_from_device(s, message):
+                ALL_DELIVERIES[0] += 1
                 log.append(("cli", s.cid, message))
                 react("cli", s.cid, s, message)
 
@@ -150,6 +156,7 @@ class Real:
         self.armed = set(self.reactions)
         kind = op[0]
         exc = None
+        all_before = ALL_DELIVERIES[0]
         try:
             if kind == "regdev":
                 d = op[1]
@@ -183,6 +190,7 @@ class Real:
         except Exception as e:  # noqa
             exc = e
         got = sorted((side, eid) for side, eid, m in self.log)
+        self.leaked = ALL_DELIVERIES[0] - all_before - len(self.log)     # deliveries to endpoints of OTHER routers of this process
         ident_ok = all(m is getattr(self, "_msg", m) for _, _, m in self.log) if kind in ("csend", "dsend") and not self.reactions else True
         return got, exc, ident_ok
 
@@ -328,6 +336,9 @@ class Explorer:
         got, exc, ident_ok = real.apply(op)
         self.ctx.count("transitions")
         self.ctx.count("deliveries_observed", len(got))
+        if getattr(real, "leaked", 0):
+            self.ctx.violate("delivered-to-an-endpoint-of-another-router", f"op {op}: {real.leaked} deliveries went to endpoints registered with "
+                             "a different Router object of this process", self.case(history, op))
         if op[0] in ("csend", "blob"):
             self.ctx.count("client_originated_messages")
         elif op[0] == "dsend":
